@@ -281,17 +281,20 @@ pub fn execute(plan: Plan, tier: &str, seed: i64, verif_dir: &str) -> i32 {
         eprintln!("MACHINERY: cannot write evidence {}: {}", evp, e);
         return 2;
     }
-    if !machinery.is_empty() {
-        for m in &machinery {
-            eprintln!("MACHINERY: {}", m);
-        }
-        return 2;
+    for m in &machinery {
+        eprintln!("MACHINERY: {}", m);
     }
     for l in &out_lines {
         println!("{}", l);
     }
     if !new_violations.is_empty() {
+        // violations were demonstrated on the real code; machinery trouble that
+        // accompanies them (e.g. a state that can no longer be driven) does not
+        // take that back
         return 1;
+    }
+    if !machinery.is_empty() {
+        return 2;
     }
     println!(
         "OK property={} tier={} states={} transitions={} evaluations={} exhaustive={} wall={:.1}s",
